@@ -6,6 +6,9 @@ CHECKS = {
  'C16': dict(technique='Coq proof over an IR regenerated from cli/main.py (cli2v translator), for every library behaviour + subprocess correspondence',
              text='C16_test, C16_set, C16_rm, C16_unknown, C16_terminate hold for every library behaviour, document, path and value over the match arms regenerated from cli/main.py on every run and interpreted by Cli/CliIR.v; the real CLI (both channels) is compared with the interpreted arms inside Coq and the property is stated directly against the observations.',
              note='trusted: Coq kernel, cli2v translator, the Python facts written into the IR interpreter (print, uncaught exception => exit 1, evaluation order); argparse and the two input channels are observed, not modelled (finding F-28 lives there)', ref='6 C16'),
+ 'C17': dict(technique='Coq proof over a hand-written path/file-system model (abstract directory tree) + in-Coq correspondence on generated layouts',
+             text='C17_relative, C17_cwd_independent, C17_absolute, C17_chain (any number of hops, by induction) and C17_errors hold for every directory tree without symlinks, every working directory and every spelling of the entry path; the model (pathlib path algebra, NixPath.resolved_path, physical lookup) is tied to the code by running parse_file(entry)[next]...[id] on generated layouts under varying cwd/spelling and comparing with the model inside Coq, and the property is also stated directly with os.path.realpath.',
+             note='trusted: Coq kernel, the hand-written model of pathlib/OS lookup (Small/PathRes.v, PathFS.v); modelled, not verified: NixPath.resolved_path, Import._follow_import, parse_file; symlinks and case-insensitive file systems are outside the model', ref='6 C17'),
  'C12': dict(technique='Coq proof over Gallina regenerated from the Python source (py2v translator) + exhaustive in-Coq function correspondence',
              text='Theorems C12_addressable, C12_written, C12_split_written, C12_written_injective, C12_accepted_wellformed, C12_malformed hold for ALL strings over the definitions regenerated from /repo on every run (_parse_npath, _format_attr_name, _escape_nix_string, _split_attrpath, identifier regex, keyword table) against a hand-written spec of Nix\'s lexer; the one-spelling clause is refuted by theorem (finding F-13, listed). A code change to these functions changes the generated model, so a broken property breaks a proof script.',
              note='trusted: Coq kernel, the py2v translator (validated each run by exhaustive short-string correspondence incl. raise sites), Lex/NixLex.v+NixAttr.v as the meaning of "Nix reads"; binding lookup by written name is covered by the edit model (C05/C19) and the names-roundtrip search, not by these theorems', ref='6 C12'),
